@@ -307,6 +307,14 @@ class Analyzer:
                 if lv and lv[0] in ("sizeof", "sizemul"):
                     return ("rawslice", lv[1], lv[0] == "sizeof")
                 return ("rawslice", None, False)
+            m_ = re.match(r"^core::num::<impl \w+>::(checked|saturating|wrapping|overflowing|unchecked)_(mul|add|sub)$", c or "") \
+                or re.match(r"^\w+::(checked|saturating|wrapping|overflowing|unchecked)_(mul|add|sub)$", c or "")
+            if m_ and len(n["args"]) == 2:
+                r_ = self.binop({"mul": "Mul", "add": "Add", "sub": "Sub"}[m_.group(2)], self.val(n["args"][0], env),
+                                self.val(n["args"][1], env), env)
+                if r_ is None:
+                    return None
+                return ("some", r_) if m_.group(1) == "checked" else r_
             if c in ("core::intrinsics::transmute", "std::mem::transmute", "core::mem::transmute") and n["args"]:
                 return self.val(n["args"][0], env)
             return None
@@ -400,6 +408,8 @@ class Analyzer:
                 env.pop(pat["v"], None)
             if "sub" in pat:
                 self.bind(pat["sub"], v, env)
+        elif k == "Variant" and pat.get("variant") == "Some" and v is not None and v[0] == "some" and len(pat.get("subs", [])) == 1:
+            self.bind(pat["subs"][0]["p"], v[1], env)
         elif k in ("Leaf", "Variant"):
             for s in pat.get("subs", []):
                 sub = s["p"]
@@ -438,7 +448,8 @@ class Analyzer:
                 eb = eb.copy()
                 eb.n = VOID
                 e = then(e, either(Ex(), eb))
-                v = None
+                if not (v is not None and v[0] == "some"):
+                    v = None
             pat = s["pat"]
             if v is not None and v[0] == "slot" and pat.get("k") == "Bind" and ("cell", v[1]) not in env:
                 # tag refinement: split over the cells induced by the literals this variable is compared with
